@@ -12,6 +12,9 @@ Lemma bind_ok {A B} (r : res A) (f : A -> res B) (b : B) :
   bind r f = Ok b -> exists a, r = Ok a /\ f a = Ok b.
 Proof. destruct r; cbn; intros H; try discriminate. eexists; split; [reflexivity|exact H]. Qed.
 
+Lemma Ok_eq {A} (a b : A) : @Ok A a = Ok b -> a = b.
+Proof. intros H. injection H. auto. Qed.
+
 (* ================================================================== checksum records *)
 Definition cksum_valid (v : cksum) : bool :=
   is_token (ck_hash v) && is_token (ck_file v) && (ck_size v <? usize_limit).
@@ -583,4 +586,77 @@ Proof.
     unfold trim. rewrite trim_start_id by exact H3.
     rewrite trim_end_snoc_ws by reflexivity. apply trim_end_id. exact H2.
   - apply trim_id; assumption.
+Qed.
+
+(* ================================================================== the guards of the open types are exact:
+   a value reads back from its text form if AND ONLY IF it satisfies the guard *)
+Lemma contains_char_split (d : char) (n : str) :
+  contains_char d n = true -> exists a b, n = a ++ d :: b /\ contains_char d a = false.
+Proof.
+  induction n as [|c n IH]; cbn [contains_char existsb]; [discriminate|].
+  destruct (c =? d) eqn:E.
+  - intros _. apply N.eqb_eq in E. subst c. exists [], n. split; reflexivity.
+  - cbn [orb]. intros H. destruct (IH H) as [a [b [-> Ha]]]. exists (c :: a), b. split; [reflexivity|].
+    cbn [contains_char existsb]. rewrite E. exact Ha.
+Qed.
+
+Theorem profile_guard_exact (v : build_profile) :
+  profile_from_str (profile_to_string v) = Ok v <-> profile_valid v = true.
+Proof.
+  split; [|apply profile_roundtrip].
+  destruct v as [s|s]; cbn [profile_valid profile_to_string]; [|reflexivity].
+  unfold profile_from_str. destruct (strip_prefix [33] s) as [r|] eqn:E; [discriminate|].
+  intros _. apply strip_prefix_starts in E. rewrite E. reflexivity.
+Qed.
+
+Theorem forwarded_guard_exact (v : forwarded) :
+  forwarded_from_str (forwarded_to_string v) = Ok v <-> forwarded_valid v = true.
+Proof.
+  split; [|apply forwarded_roundtrip].
+  destruct v as [| |s]; cbn [forwarded_valid forwarded_to_string]; [reflexivity|reflexivity|].
+  unfold forwarded_from_str. destruct (str_eqb s lit_no); [discriminate|].
+  destruct (str_eqb s lit_not_needed); [discriminate|]. reflexivity.
+Qed.
+
+Theorem origin_guard_exact (v : commit_or) :
+  (origin_from_str (origin_to_string v) = Ok v <-> commit_or_valid v = true) /\
+  (applied_from_str (applied_to_string v) = Ok v <-> commit_or_valid v = true).
+Proof.
+  assert (G : origin_from_str (origin_to_string v) = Ok v <-> commit_or_valid v = true).
+  { split; [|apply origin_roundtrip].
+    destruct v as [s|s]; cbn [commit_or_valid origin_to_string]; [reflexivity|].
+    unfold origin_from_str. destruct (strip_prefix lit_commit s) as [r|] eqn:E; [discriminate|].
+    intros _. apply strip_prefix_starts in E. rewrite E. reflexivity. }
+  split; exact G.
+Qed.
+
+Theorem license_guard_exact (v : license) :
+  license_from_str (license_to_string v) = Ok v <-> license_valid v = true.
+Proof.
+  split; [|apply license_roundtrip].
+  destruct v as [n|t|n t]; cbn [license_valid license_to_string]; [| reflexivity |].
+  - unfold license_from_str. destruct (split_once 10 n) as [[a b]|] eqn:E.
+    + destruct a; discriminate.
+    + intros _. apply split_once_none in E. rewrite E. reflexivity.
+  - intros H. destruct n as [|c n].
+    + exfalso. cbn [app] in H. unfold license_from_str in H.
+      change (10 :: t) with ([] ++ 10 :: t) in H. rewrite (split_once_app 10 [] t eq_refl) in H.
+      cbn [is_empty] in H. discriminate H.
+    + cbn [is_empty negb andb]. destruct (contains_char 10 (c :: n)) eqn:C; [|reflexivity]. exfalso.
+      destruct (contains_char_split 10 _ C) as [a [b [En Ha]]].
+      unfold license_from_str in H. rewrite En, <- app_assoc in H. cbn [app] in H.
+      rewrite (split_once_app 10 a (b ++ 10 :: t) Ha) in H.
+      destruct a as [|x a]; cbn [is_empty] in H; [discriminate H|].
+      apply Ok_eq in H.
+      apply (f_equal (fun l => match l with LNamed n _ => length n | _ => O end)) in H.
+      cbn [app length] in H. rewrite app_length in H. cbn [length] in H. lia.
+Qed.
+
+Theorem signature_guard_exact (v : signature) :
+  signature_from_str (signature_to_string v) = Ok v <-> signature_valid v = true.
+Proof.
+  split; [|apply signature_roundtrip].
+  destruct v as [t|p]; cbn [signature_valid signature_to_string]; [reflexivity|].
+  unfold signature_from_str. destruct (strip_prefix [10] p); [discriminate|].
+  destruct (contains_char 10 p); [discriminate|reflexivity].
 Qed.
